@@ -1,7 +1,7 @@
 #!/bin/bash
 # Replays the Go port of PEP 440's sort key against packaging.version (python3-vt).
 cd "$(dirname "$0")/.."
-./.work/vcheck -dumpref pypi -dumpmax "${1:-700}" > .work/pypi_pairs.txt || exit 2
+"${VERIF_BIN:-.work}/vcheck" -dumpref pypi -dumpmax "${1:-700}" > .work/pypi_pairs.txt || exit 2
 python3-vt - <<'PY'
 from packaging.version import Version, InvalidVersion
 import packaging
